@@ -402,3 +402,32 @@ CORPUS = [
     "tiny",
     "tworuns",
 ]
+
+
+@register
+class CpSpace(Base):
+    """Checkpoints at spacing s over n tagged messages; `tail` messages after the last checkpoint."""
+
+    id = "cpspace"
+
+    def devices(self, ctx):
+        return {}
+
+    def plan(self, d):
+        from bluesky.utils import Msg
+
+        s = self.params.get("s", 2)
+        n = self.params.get("n", 6)
+        tail = self.params.get("tail", 2)
+
+        def plan():
+            for i in range(n):
+                if i % s == 0:
+                    yield Msg("checkpoint")
+                if i == 1:
+                    yield Msg("sleep", None, 0.25)
+                yield Msg("null", None, i)
+            for i in range(tail):
+                yield Msg("null", None, f"tail{i}")
+
+        return plan()
